@@ -386,6 +386,8 @@ def run(R):
     R.assume('A4', 'A6')
     R.trust('h5py contract as modelled in engine/fsmodel.py: file = map name -> array; create_dataset on an existing name / with data=None raises; os.path.exists reflects created files')
     R.trust('requires: the iteration values of data["it"] are distinct; the iterations passed to save_data are among them')
+    from props import savevc
+    savevc.save_obligations(R)          # unbounded: loop contracts on the real statements of save_data
     scen = scenario_list(R.tier)
     scen.sort(key=lambda sc: -(sc['nd'] * 10 + sc['n_save'] * 3 + (5 if sc.get('two_saves') else 0)))
     R.bounded.append(dict(function='save_data / read_aurel_data / read_data',
@@ -416,6 +418,7 @@ def run(R):
         else:
             R.ob(name, fn, 'bounded-ok', 'z3-paths', secs / max(len(total), 1), f'{cnt} checks over all paths',
                  bounded='list lengths / name sets enumerated; iteration values and contents symbolic')
-    R.extra['explanation'] = ('contracts of save_data / read_aurel_data / read_data checked on every path of the real code over symbolic '
+    R.extra['explanation'] = ('save_data: loop contracts (inductive steps from an arbitrary file-system state, z3) -- unbounded in the number of iterations, variables and entries; '
+                              'contracts of save_data / read_aurel_data / read_data checked on every path of the real code over symbolic '
                               'iteration values and opaque array contents; list lengths, variable-name subsets, levels and path spellings '
                               f'enumerated ({len(scen)} shapes, {npaths} paths): bounded in shape, unbounded in values')
